@@ -149,10 +149,11 @@ NdcOfWin(win, vp, zo) ==
     << QSub(QMul(QDiv(QSub(win[1], vp[1]), vp[3]), QTwo), QOne),
        QSub(QMul(QDiv(QSub(win[2], vp[2]), vp[4]), QTwo), QOne),
        IF zo THEN win[3] ELSE QSub(QMul(win[3], QTwo), QOne), QOne >>
-\* the homogeneous pre-image, up to the common factor det(proj * model)
-UnProjectHom(win, model, proj, vp, zo) == MVecN(Adj4N(MMulN(proj, model)), NdcOfWin(win, vp, zo))
-UnProjectQ(win, model, proj, vp, zo) ==                                 \* requires det # 0 and a finite pre-image
-    LET o == UnProjectHom(win, model, proj, vp, zo) IN << QDiv(o[1], o[4]), QDiv(o[2], o[4]), QDiv(o[3], o[4]) >>
+\* the homogeneous pre-image, up to the common factor det(proj * model); adj = Adj4N(proj * model)
+UnProjectHomA(adj, win, vp, zo) == MVecN(adj, NdcOfWin(win, vp, zo))
+UnProjectHom(win, model, proj, vp, zo) == UnProjectHomA(Adj4N(MMulN(proj, model)), win, vp, zo)
+DeHom(o) == << QDiv(o[1], o[4]), QDiv(o[2], o[4]), QDiv(o[3], o[4]) >>
+UnProjectQ(win, model, proj, vp, zo) == DeHom(UnProjectHom(win, model, proj, vp, zo))   \* requires det # 0 and a finite pre-image
 \* gluPickMatrix: restricts the view to the window rectangle of size delta centred at center
 PickMatrix(center, delta, vp) ==
     LET sx == QDiv(vp[3], delta[1]) sy == QDiv(vp[4], delta[2])
